@@ -210,3 +210,40 @@ Theorem C07_no_panic_bucket_index_in_range : forall c T t k i,
   bucket_index (local t) k = Some i -> i < length (buckets t).
 Proof. exact table_index_in_range. Qed.
 Print Assumptions C07_no_panic_bucket_index_in_range.
+
+(* Configuration plumbing (Model/Config.v, transcribing ConfigBuilder, Config, Discv5::new / Discv5::start,
+   tied to the code by the `glue` correspondence run on real loopback sockets): the parameters the theorems
+   above take as given are the ones the application configured - the value set last through the builder,
+   or the default - at every component they are handed to. *)
+Require Discv5V.Generated.Params Discv5V.Model.Config Discv5V.Proofs.Config.
+Theorem C07_configured_incoming_limit_reaches_the_table : forall ops v, Discv5V.Model.Config.start_node ops = Some v ->
+  Discv5V.Model.Config.VN (Discv5V.Model.Config.nv_table_incoming_limit v) = Discv5V.Model.Config.configured ops Discv5V.Model.Config.FIncomingBucketLimit /\
+  (Discv5V.Model.Config.nv_table_incoming_limit v <= Discv5V.Generated.Params.MAX_NODES_PER_BUCKET)%N /\
+  Discv5V.Model.Config.VN (Discv5V.Model.Config.c_incoming_bucket_limit (Discv5V.Model.Config.nv_service v)) = Discv5V.Model.Config.configured ops Discv5V.Model.Config.FIncomingBucketLimit.
+Proof. exact Discv5V.Proofs.Config.effective_incoming_bucket_limit. Qed.
+Print Assumptions C07_configured_incoming_limit_reaches_the_table.
+Theorem C07_configuration_example : exists v, Discv5V.Model.Config.start_node Discv5V.Proofs.Config.example_ops = Some v.
+Proof. destruct Discv5V.Proofs.Config.example_starts as [v [H _]]. exists v. exact H. Qed.
+Print Assumptions C07_configuration_example.
+
+(* A pending node is promoted only over a disconnected head: no operation of the table removes a
+   connected node that it does not address (Proofs/KBucketGap.v). *)
+Require Discv5V.Model.KBucket Discv5V.Proofs.KBMembers Discv5V.Proofs.KBucketGap.
+Module C07Pending.
+Import Discv5V.Model.KBucket.
+Theorem C07_connected_node_never_evicted_by_pending : forall c b now n,
+  In n (nodes b) -> nconn n = true -> In n (nodes (fst (b_apply_pending c b now))).
+Proof. exact Discv5V.Proofs.KBucketGap.apply_pending_never_evicts_connected. Qed.
+Print Assumptions C07_connected_node_never_evicted_by_pending.
+Theorem C07_what_a_promotion_removes : forall c b now n,
+  In n (nodes b) -> ~ In n (nodes (fst (b_apply_pending c b now))) ->
+  nconn n = false /\ is_full b = true /\ (exists rest, nodes b = n :: rest) /\
+  exists p, pend b = Some p /\ (preplace p <= now)%N.
+Proof. exact Discv5V.Proofs.KBucketGap.apply_pending_departures. Qed.
+Print Assumptions C07_what_a_promotion_removes.
+Theorem C07_no_operation_drops_a_connected_node_it_does_not_address : forall fixed c t o now j n,
+  In n (nodes (get_bucket t j)) -> nconn n = true -> Discv5V.Proofs.KBucketGap.addressed o <> Some (nkey n) ->
+  In n (nodes (get_bucket (fst (step fixed c t o now)) j)).
+Proof. exact Discv5V.Proofs.KBucketGap.step_never_drops_connected. Qed.
+Print Assumptions C07_no_operation_drops_a_connected_node_it_does_not_address.
+End C07Pending.
